@@ -81,6 +81,9 @@ FaceN(face) == NewellSum(face, 1)
 SideOf(face, x, m) == Dot3(FaceN(face), Sub3(x, VScale(m, face[1])))       \* x = point times m
 FaceSign(cell, f) == IF \E v \in CellVerts(cell) : SideOf(cell[f], v, 1) > 0 THEN -1 ELSE 1
 InCellS(cell, x, m) == \A f \in 1..Len(cell) : FaceSign(cell, f) * SideOf(cell[f], x, m) <= 0
+\* every vertex of the polygon lies in some (closed) cell; the unions of the tilings used are convex boxes, so the
+\* polygon is then contained in the tiled region
+Covers(cells, poly) == \A i \in 1..Len(poly) : \E c \in 1..Len(cells) : InCellS(cells[c], poly[i], 1)
 \* strictly convex planar polygon (the documented domain of polygons_by_polyhedron / polygons_3d)
 Turn(poly, i) == LET n == Len(poly)  a == poly[i]  b == poly[NextI(i, n)]  c == poly[NextI(NextI(i, n), n)]
                  IN Dot3(PrimN(poly), Cross3(Sub3(b, a), Sub3(c, b)))
